@@ -184,6 +184,8 @@ def decodeKeyBody : Ss :=
             (.assign .set (Es.ofList [(.var "key.Keycode")]) (Es.ofList [(.var "KeyRight")]))])),
           ((Es.ofList [(.int 68)]), (Ss.ofList [
             (.assign .set (Es.ofList [(.var "key.Keycode")]) (Es.ofList [(.var "KeyLeft")]))])),
+          ((Es.ofList [(.int 69)]), (Ss.ofList [
+            (.assign .set (Es.ofList [(.var "key.Keycode")]) (Es.ofList [(.var "KeyKeyPadBegin")]))])),
           ((Es.ofList [(.int 70)]), (Ss.ofList [
             (.assign .set (Es.ofList [(.var "key.Keycode")]) (Es.ofList [(.var "KeyEnd")]))])),
           ((Es.ofList [(.int 72)]), (Ss.ofList [
